@@ -60,8 +60,8 @@ Definition lldp_get_tlv (p : slice) (n : nat) : res tlv :=
      let t := N.to_nat (N.shiftr a 1) in
      let l := N.to_nat (N.shiftl (N.land a 1) 8 + b) in
      if Nat.eqb t 0 && Nat.eqb l 0 then Ok TlvEnd
-     else if Nat.ltb (n + 2 + l + 2) (len p) then
-       (_ <- sl p (n + 2) (n + l) ;; Ok (TlvVal t l))
+     else if Nat.leb (n + 2 + l) (len p) then      (* as repaired by 5551427: p[n+2 : n+2+l] *)
+       (_ <- sl p (n + 2) (n + 2 + l) ;; Ok (TlvVal t l))
      else Ok TlvErr)%res.
 
 Fixpoint lldp_get_pdu (fuel : nat) (p : slice) (pdu : nat) (pos : nat) : res unit :=
@@ -76,27 +76,6 @@ Fixpoint lldp_get_pdu (fuel : nat) (p : slice) (pdu : nat) (pos : nat) : res uni
                        else lldp_get_pdu f p pdu (pos + l + 2)
        end)%res
   end.
-
-(* known class (DESIGN section 11 #7): the walk reaches a TLV of length 0 or 1 that is not
-   the end marker and lies at least 4+l bytes before the end: p[n+2 : n+l] with n+l < n+2 *)
-Fixpoint lldp_short_tlv (k : nat) (p : slice) (pdu : nat) (pos : nat) : bool :=
-  match k with
-  | O => false
-  | S k' =>
-      if Nat.leb (len p) (pos + 2) then false
-      else
-        let a := nth pos (arr p) 0 in
-        let b := nth (pos + 1) (arr p) 0 in
-        let t := N.to_nat (N.shiftr a 1) in
-        let l := N.to_nat (N.shiftl (N.land a 1) 8 + b) in
-        if Nat.eqb t 0 && Nat.eqb l 0 then false
-        else if Nat.ltb (pos + 2 + l + 2) (len p) then
-          (if Nat.ltb l 2 then true
-           else if Nat.eqb t pdu || Nat.eqb t 0 then false
-           else lldp_short_tlv k' p pdu (pos + l + 2))
-        else false
-  end.
-Definition known_C08_lldp_short_tlv (p : slice) (pdu : nat) : bool := lldp_short_tlv (len p) p pdu 0.
 
 (* ---------------------------------------------------------------- 802.3 / LLC / SNAP *)
 Definition process_8023 (payload : slice) : res unit :=
@@ -174,3 +153,13 @@ Definition process_ssdp (v : ssdp_view) : res unit :=
   else if sv_kind v =? 1 then (if sv_man_ok v then Ok tt else Err EParseFrame)
   else (if sv_status_ok v then Ok tt else Err EParseFrame).
 
+
+(* ---------------------------------------------------------------- UPNP (upnp.go:80) *)
+(* UPNPServiceDiscovery over the outcome of the third-party steps: the HTTP exchange
+   (http.NewRequest / client.Do / status / ReadAll) and encoding/xml.Unmarshal *)
+Definition upnp_discovery (fetch_ok xml_ok : bool) : res unit :=
+  if negb fetch_ok then Err EOther else if negb xml_ok then Err EOther else Ok tt.
+
+(* LLDP frames through the dispatcher: IsValid (len >= 6) then GetPDU *)
+Definition lldp_process (fuel : nat) (p : slice) (pdu : nat) : res unit :=
+  if Nat.ltb (len p) 6 then Err EFrameLen else lldp_get_pdu fuel p pdu 0.
